@@ -50,16 +50,83 @@ def f64canon(bits):
     return struct.pack('<Q', bits).hex()
 
 
+def utf8_ok(b):
+    try:
+        b.decode('utf-8'); return True
+    except UnicodeDecodeError:
+        return False
+
+
+def packed(n):
+    return bytes([n]) if n < 255 else b'\xff' + n.to_bytes(3, 'little')
+
+
+# ---- structured values ----
+# int | ('f', bits32) | ('d', bits64) | ('v', [bits32...]) | ('s', bytes) | ('m', ip4, port) | list | dict | None
+def canon_of(t, v):
+    k = t[0]
+    if k == 'user': return canon_of(t[1], v)
+    if k in ('u', 'i'): return 'i%d' % v
+    if k == 'f32': return 'f' + f32canon(v[1])
+    if k == 'f64': return 'd' + f64canon(v[1])
+    if k == 'vec': return 'v(' + ','.join(f32canon(b) for b in v[1]) + ')'
+    if k == 'string': return ('s' if utf8_ok(v[1]) else 'b') + v[1].hex()
+    if k in ('blob', 'python'): return 'b' + v[1].hex()
+    if k == 'mailbox': return 'm%s:%d' % (v[1].hex(), v[2])
+    if k == 'array': return '[' + ','.join(canon_of(t[1], x) for x in v) + ']'
+    if k == 'dict':
+        if v is None: return 'n'
+        return '{' + ','.join('%s=%s' % (nm, canon_of(ft, v[nm])) for nm, ft in t[1]) + '}'
+    raise AssertionError(t)
+
+
+def enc_of(t, v):
+    """text for the model's spec encoder: like canon_of but with the real NaN bit patterns"""
+    k = t[0]
+    if k == 'user': return enc_of(t[1], v)
+    if k == 'f32': return 'f' + struct.pack('<I', v[1]).hex()
+    if k == 'f64': return 'd' + struct.pack('<Q', v[1]).hex()
+    if k == 'vec': return 'v(' + ','.join(struct.pack('<I', b).hex() for b in v[1]) + ')'
+    if k == 'array': return '[' + ','.join(enc_of(t[1], x) for x in v) + ']'
+    if k == 'dict':
+        if v is None: return 'n'
+        return '{' + ','.join('%s=%s' % (nm, enc_of(ft, v[nm])) for nm, ft in t[1]) + '}'
+    return canon_of(t, v)
+
+
+def wire_of(t, v, hdr=1):
+    """the wire encoding as property C03 states it (harness-side copy used only to BUILD inputs; never an oracle)"""
+    k = t[0]
+    if k == 'u': return v.to_bytes(t[1], 'little')
+    if k == 'i': return (v % (1 << (8 * t[1]))).to_bytes(t[1], 'little')
+    if k == 'f32': return struct.pack('<I', v[1])
+    if k == 'f64': return struct.pack('<Q', v[1])
+    if k == 'vec': return b''.join(struct.pack('<I', b) for b in v[1])
+    if k in ('string', 'blob', 'python'): return packed(len(v[1])) + v[1]
+    if k == 'mailbox': return v[1] + struct.pack('>H', v[2])
+    if k == 'array':
+        body = b''.join(wire_of(t[1], x, hdr) for x in v)
+        return body if t[2] is not None else packed(len(v)) + body
+    if k == 'dict':
+        if v is None: return b'\x00'
+        body = b''.join(wire_of(ft, v[nm], hdr) for nm, ft in t[1])
+        return (b'\x01' if t[2] else b'') + body
+    if k == 'user':
+        if t[1] == ('blob',): return wire_of(t[1], v, hdr)
+        body = wire_of(t[1], v, hdr)
+        return (len(body) % (256 ** hdr)).to_bytes(hdr, 'little') + body if hdr else body
+    raise AssertionError(t)
+
+
 class ValueGen:
-    """generates (canonical value text, wire-level value text for the model's encoder, flags)
-    The text handed to the encoder must carry real NaN bit patterns, so both forms are produced."""
+    """generates structured values with boundary values enumerated; flags record which code-range limits are exceeded"""
     def __init__(self, rng, allow_big=True, allow_huge=False):
         self.rng = rng; self.allow_big = allow_big; self.allow_huge = allow_huge
         self.flags = set()
 
     def length(self, small_only=False):
         r = self.rng.random()
-        if small_only or r < 0.8: return self.rng.choice(LENS + [self.rng.randrange(0, 40)] * 4)
+        if small_only or r < 0.8: return self.rng.choice(LENS + [self.rng.randrange(0, 40)] * 4) if not small_only else self.rng.choice([0, 1, 2, 3, 7, 12])
         if self.allow_huge and r > 0.985: return self.rng.choice(HUGE_LENS)
         if self.allow_big: return self.rng.choice(BIG_LENS)
         return self.rng.choice(LENS)
@@ -69,27 +136,17 @@ class ValueGen:
         if n > 2000: return bytes([rng.randrange(256)]) * n
         return bytes(rng.randrange(256) for _ in range(n))
 
-    def value(self, t, nested=False):
-        """returns (expected canonical text, encoder input text)"""
+    def struct(self, t, nested=False):
         rng = self.rng; k = t[0]
         if k == 'u':
-            z = rng.choice([b for b in INT_BOUNDS(t[1]) if b < 2 ** (8 * t[1])] + [rng.randrange(2 ** (8 * t[1]))])
-            return 'i%d' % z, 'i%d' % z
+            return rng.choice([b for b in INT_BOUNDS(t[1]) if b < 2 ** (8 * t[1])] + [rng.randrange(2 ** (8 * t[1]))])
         if k == 'i':
             w = t[1]; lo, hi = -2 ** (8 * w - 1), 2 ** (8 * w - 1) - 1
             z = rng.choice([lo, lo + 1, -1, 0, 1, hi - 1, hi, -128, 127, rng.randrange(lo, hi + 1)])
-            z = max(lo, min(hi, z))
-            return 'i%d' % z, 'i%d' % z
-        if k == 'f32':
-            b = rng.choice(F32_BITS + [rng.randrange(2 ** 32)] * 3)
-            return 'f' + f32canon(b), 'f' + struct.pack('<I', b).hex()
-        if k == 'f64':
-            b = rng.choice(F64_BITS + [rng.randrange(2 ** 64)] * 3)
-            return 'd' + f64canon(b), 'd' + struct.pack('<Q', b).hex()
-        if k == 'vec':
-            n = t[1] // 4
-            bs = [rng.choice(F32_BITS + [rng.randrange(2 ** 32)] * 3) for _ in range(n)]
-            return 'v(' + ','.join(f32canon(b) for b in bs) + ')', 'v(' + ','.join(struct.pack('<I', b).hex() for b in bs) + ')'
+            return max(lo, min(hi, z))
+        if k == 'f32': return ('f', rng.choice(F32_BITS + [rng.randrange(2 ** 32)] * 3))
+        if k == 'f64': return ('d', rng.choice(F64_BITS + [rng.randrange(2 ** 64)] * 3))
+        if k == 'vec': return ('v', [rng.choice(F32_BITS + [rng.randrange(2 ** 32)] * 3) for _ in range(t[1] // 4)])
         if k == 'string':
             r = rng.random()
             if r < 0.55:
@@ -101,35 +158,29 @@ class ValueGen:
                 n = self.length(small_only=nested)
                 s = (b'ab\xd0\x96' * (n // 4 + 1))[:n] if rng.random() < 0.5 else self.rbytes(n)
             if len(s) >= 65536: self.flags.add('string>=65536')
-            try:
-                s.decode('utf-8'); tag = 's'
-            except UnicodeDecodeError:
-                tag = 'b'
-            return tag + s.hex(), tag + s.hex()
-        if k == 'blob':
-            b = self.rbytes(self.length(small_only=nested))
-            return 'b' + b.hex(), 'b' + b.hex()
+            return ('s', s)
+        if k == 'blob': return ('s', self.rbytes(self.length(small_only=nested)))
         if k == 'python':
             n = self.length(small_only=nested)
             if n >= 255: self.flags.add('python>=255')
-            b = self.rbytes(n)
-            return 'b' + b.hex(), 'b' + b.hex()
+            return ('s', self.rbytes(n))
         if k == 'mailbox':
-            ip = self.rbytes(4); port = rng.choice([0, 1, 255, 256, 6000, 65535, rng.randrange(65536)])
-            s = 'm%s:%d' % (ip.hex(), port)
-            return s, s
+            return ('m', self.rbytes(4), rng.choice([0, 1, 255, 256, 6000, 65535, rng.randrange(65536)]))
         if k == 'array':
             if t[2] is not None: n = t[2]
             else:
                 small = nested or t[1][0] in ('array', 'dict', 'user')
-                n = rng.choice([0, 1, 2, 3, 4]) if small or rng.random() < 0.8 else rng.choice([254, 255, 256, 300] if self.allow_big else [10, 20])
+                n = rng.choice([0, 1, 2, 3, 4]) if small or rng.random() < 0.8 or not self.allow_big else rng.choice([254, 255, 256, 300])
                 if n >= 255: self.flags.add('count>=255')
-            vs = [self.value(t[1], nested=True) for _ in range(n)]
-            return '[' + ','.join(v[0] for v in vs) + ']', '[' + ','.join(v[1] for v in vs) + ']'
+            return [self.struct(t[1], nested=True) for _ in range(n)]
         if k == 'dict':
-            if t[2] and rng.random() < 0.35: return 'n', 'n'
-            vs = [(nm, self.value(ft, nested=True)) for nm, ft in t[1]]
-            return '{' + ','.join('%s=%s' % (nm, v[0]) for nm, v in vs) + '}', '{' + ','.join('%s=%s' % (nm, v[1]) for nm, v in vs) + '}'
+            if t[2] and rng.random() < 0.35: return None
+            return {nm: self.struct(ft, nested=True) for nm, ft in t[1]}
         if k == 'user':
-            return self.value(t[1], nested)
+            return self.struct(t[1], nested)
         raise AssertionError(t)
+
+    def value(self, t, nested=False):
+        """returns (expected canonical text, encoder input text)"""
+        v = self.struct(t, nested)
+        return canon_of(t, v), enc_of(t, v)
